@@ -28,21 +28,23 @@ MODES = {"verbose": 0, "compact": 1, "numeric": 2}
 
 def rand_name(r):
     k = r.random()
-    if k < 0.35:
+    if k < 0.33:
         words = ["Sensor", "Array", "Tank", "Hydro", "Airlock", "Solar", "Heater", "A", "H", "S", "HASH", "STR", "x", "Bay", "(O2)", "1", "2", "Main Bank", "é", "Ωmega", "日本", "😀"]
         return r.choice([" ", "", "-", "_"]).join(r.choice(words) for _ in range(r.randrange(1, 4)))
-    if k < 0.7:
+    if k < 0.62:
         alphabet = "ABCDEFGHIJKLMNOPQRSTUVWXYZabcdefghijklmnopqrstuvwxyz0123456789 _-()[].,:;!?+*/='"
         return "".join(r.choice(alphabet) for _ in range(r.randrange(1, 14)))
-    if k < 0.85:
+    if k < 0.75:
         return "".join(chr(r.choice([r.randrange(32, 127), r.randrange(160, 256), r.randrange(0x100, 0x800), r.randrange(0x800, 0xD800), r.randrange(0x10000, 0x10FFFF)]))
                        for _ in range(r.randrange(1, 6)))
-    if k < 0.92:
+    if k < 0.83:
         # whitespace inside a name is part of the name: runs of blanks, no-break and other Unicode spaces, blanks at the ends
         words = ["Tank", "North", "Vent", "Out", "Bay", "7", "Main", "X"]
         nm = r.choice(["  ", "   ", "\u00a0", " \u00a0", "\u2003", "\u3000", " \u2009 "]).join(r.choice(words) for _ in range(r.randrange(2, 4)))
         return r.choice(["", "", " ", "  "]) + nm + r.choice(["", "", " ", "  "])
-    return r.choice(["H", "A", "S", "(", ")", "a)", "HASH", "HASH(", "STR(x)", "x)", "ASH", "HS", "-1", "12", "$FF", "r0", "db", "sp", "Setting", "a.b", "a b"])
+    # names that look like parts of the token syntax around them: brackets and quotes at the ends, token names, register names
+    return r.choice(["H", "A", "S", "(", ")", "a)", "HASH", "HASH(", "STR(x)", "x)", "ASH", "HS", "-1", "12", "$FF", "r0", "db", "sp", "Setting", "a.b", "a b",
+                     "Tank (2)", "Room (east)", "Slot (3)", "((x))", "y))", "(Bay", "'q'", "it's"])
 
 
 def name_ok_for_hash(s: str) -> bool:
